@@ -9,6 +9,7 @@ from .flow import Flow
 from .facts import callee_name
 
 ALL = frozenset((0, 1, 2))
+OUTPUT_3OF3 = ("MultiplyMPC", "DotMPC", "MatmulMPC", "GemmMPC", "MixedMultiplyMPC")
 # helpers whose result is a vector indexed by party with a documented holder convention: "pair" = component j is held by
 # parties j and j-1 (keys after generate_prf_key_triple's Send(j, j-1)); "single" = component j is held by party j only
 TRIPLE_HELPERS = {
@@ -105,6 +106,19 @@ class Knowledge:
                 sor = fl.origins(src[0], (bb, None))
                 if sor and all(o[0] == "call" and callee_name(b.term(o[1])) == "graphs::Graph::input" for o in sor) and 0 <= idx <= 2:
                     res = (frozenset((idx, (idx - 1) % 3)), True)
+                elif sor and all(o[0] == "call" and callee_name(b.term(o[1])) == "graphs::Graph::custom_op" for o in sor) and 0 <= idx <= 2:
+                    # result of a sub-protocol: a replicated sharing, or a 3-out-of-3 one for the product protocols
+                    three = False
+                    for o in sor:
+                        tt = b.term(o[1])
+                        for oo in fl.origins(tt["args"][1], (o[1], None)):
+                            if oo[0] == "agg" and any(oo[3].endswith("::" + n) or ("::" + n + "::") in oo[3] for n in OUTPUT_3OF3):
+                                three = True
+                            if oo[0] == "call":
+                                for o3 in fl.origins(b.term(oo[1])["args"][0], (oo[1], None)) if b.term(oo[1])["args"] else ():
+                                    if o3[0] == "agg" and any(o3[3].split("::")[-1] == n for n in OUTPUT_3OF3):
+                                        three = True
+                    res = (frozenset((idx,)) if three else frozenset((idx, (idx - 1) % 3)), True)
                 else:
                     # component of a tuple built here
                     comp = None
